@@ -115,6 +115,25 @@ def crate_dir(prop):
     return os.path.join(VERIF, "harness", prop)
 
 
+ASSUMPTION_CONSTRUCTS = ("kani::assume(", "#[kani::stub(", "#[kani::stub_verified(", "kani::any_where(", "unsafe ")
+
+
+def assumption_scan(prop):
+    """Mechanical count, on every run, of the constructs in the generated harness crate that are assumptions rather than
+    proof (kani::assume, stubs, unsafe). Reported in the evidence; never influences a verdict."""
+    counts = {c: 0 for c in ASSUMPTION_CONSTRUCTS}
+    try:
+        for d, _, fs in os.walk(os.path.join(crate_dir(prop), "src")):
+            for f in fs:
+                if f.endswith(".rs"):
+                    txt = open(os.path.join(d, f), errors="replace").read()
+                    for c in ASSUMPTION_CONSTRUCTS:
+                        counts[c] += txt.count(c)
+    except OSError:
+        pass
+    return counts
+
+
 def target_dir(prop):
     return os.path.join(VERIF, "target", prop)
 
@@ -593,6 +612,7 @@ def write_evidence(fam, tier, seed, discharged, results, dropped, info, wall, un
         "tools": info.get("tools", {}),
         "functions_under_contract": fam.functions_under_contract,
         "stubs_reported_by_kani": stubs,
+        "assumption_constructs_in_harness_crate": assumption_scan(fam.prop),
         "negative_controls_failed_as_expected": controls_ok,
         "undecided": undecided,
         "known_findings": [k for k, _ in known],
